@@ -1,7 +1,7 @@
 SPECIFICATION Spec
 CONSTANTS
-  OrderTypes = {0, 1, 2, 3, 5, 6}
-  OrderNs = {2, 3, 8, 9, 11}
+  OrderTypes = {0, 1, 3, 5, 6}
+  OrderNs = {2, 3, 8, 9}
   OrderVals = {0, 2, 6, 7}
 INVARIANTS Irreflexive Asymmetric Transitive Total CompactConsistent
 CHECK_DEADLOCK FALSE
